@@ -140,6 +140,8 @@ def new_model(fam, profile):
         return HourlyModel(settings={"cvrmse_threshold": 1e-6, "pnrmse_threshold": 1e-6})
     if profile == "ghi":
         return HourlyModel(settings={"train_features": ["temperature", "ghi"]})
+    if profile == "adaptive":    # the other fit path of the hourly model (_adaptive_fit)
+        return HourlyModel(settings={"elasticnet": {"adaptive_weights": True, "adaptive_weight_max_iter": 3, "adaptive_weight_tol": 1e-3}})
     return HourlyModel()
 
 
@@ -237,6 +239,10 @@ def gen_history(rng, fam, k):
         ops = [("fit", "missmonth", False), ("fit", "missmonth", True), ("predict", "rep", False), ("reload",),
                ("predict", "rep", False), ("predict", "rep", True), ("reload",), ("predict", "rep", False)]
         return "default", ops
+    if k == 4 and fam == "Hourly":
+        ops = [("fit", "exporter_poor", False), ("predict", "rep", False), ("reload",), ("predict", "rep", False),
+               ("fit", "clean", False), ("predict", "rep", False)]
+        return "adaptive", ops
     if k == 3 and fam == "Hourly":
         ops = [("fit", "exporter_poor", False), ("predict", "rep", False), ("reload",), ("predict", "rep", False),
                ("predict", "rep", True)]
